@@ -567,8 +567,23 @@ def gen_dup_cases(rng):
     return out
 
 
+def gen_prior_cases(rng):
+    """every builder that takes nests, called after the same nests object (and the same utility dict, updated in
+    place) served for another model: the tree must be the one of a first call"""
+    out = []
+    for kind in NESTED_KINDS + CNL_KINDS:
+        for mode in ('newdict', 'inplace'):
+            while True:
+                c = g_nested_case(rng, kind) if kind in NESTED_KINDS else g_cnl_case(rng, kind)
+                if c['nests'] and len(c['util']) >= 2:
+                    break
+            c['prior'] = mode
+            out.append(c)
+    return out
+
+
 def gen_build_cases(rng, n):
-    cases = gen_dup_cases(rng) + gen_name_cases(rng) + gen_const_av_cases(rng)
+    cases = gen_dup_cases(rng) + gen_name_cases(rng) + gen_const_av_cases(rng) + gen_prior_cases(rng)
     for _ in range(n):
         r = rng.random()
         if r < 0.42:
@@ -577,6 +592,8 @@ def gen_build_cases(rng, n):
             c = g_nested_case(rng, kind, fault)
             if rng.random() < 0.25 and 'syntaxes' not in c:
                 add_names(rng, c)
+            if rng.random() < 0.2:
+                c['prior'] = rng.choice(['newdict', 'inplace'])
             cases.append(c)
         elif r < 0.80:
             kind = rng.choice(CNL_KINDS)
@@ -1081,6 +1098,8 @@ def case_oracles(c, res, r):
     """all the C05 oracles for row r of one value case; None = row without an available alternative"""
     if c['family'].startswith('ordered'):
         return oracle_ordered(c, res, r)
+    if c.get('history'):
+        return oracle_history(c, res, r)
     shiftname = 'Ps' if 'Ps' in res else None
     bad = oracle_distribution(c, res, r, 'P', 'logP', shiftname or '-')
     if bad is None:
@@ -1118,6 +1137,139 @@ def case_oracles(c, res, r):
     return bad
 
 
+HISTORY_FNS = {'logit': ['logit', 'loglogit'], 'mev': ['mev', 'logmev'], 'mev_es': ['mev_es', 'logmev_es'],
+               'nested': ['nested', 'lognested', 'lnG_nested', 'gen'],
+               'nested_mu': ['nested_mev_mu', 'lognested_mev_mu', 'lnG_nested_mu', 'nested', 'lognested'],
+               'cnl': ['cnl', 'logcnl', 'lnG_cnl'], 'cnlmu': ['cnlmu', 'logcnlmu', 'lnG_cnl_mu', 'cnl']}
+PROB_FNS = ('logit', 'mev', 'mev_es', 'nested', 'nested_mev_mu', 'cnl', 'cnlmu')
+
+
+def history_steps(rng, fam, alts, has_av):
+    """evaluate, then 1-3 rounds of (update of the utilities / availabilities: a new dict or the same dict changed
+    in place) followed by evaluations on the SAME nests / dict objects"""
+    fns = HISTORY_FNS[fam]
+    steps = [{'op': 'eval', 'fn': fns[0]}]
+    if rng.random() < 0.5:
+        steps.append({'op': 'eval', 'fn': rng.choice(fns)})
+    for _ in range(rng.randint(1, 3)):
+        kinds = ['shift_new', 'shift_inplace', 'bump_inplace', 'bump_new']
+        if has_av:
+            kinds += ['av_inplace', 'av_new']
+        k = rng.choice(kinds)
+        if k.startswith('shift'):
+            steps.append({'op': k, 'c': rng.choice([-2, -0.75, 0.5, 1.5, 3])})
+        elif k.startswith('bump'):
+            steps.append({'op': k, 'alt': rng.choice(alts), 'h': rng.choice([-1.5, 0.8, 2])})
+        else:
+            steps.append({'op': k, 'alt': rng.choice(alts), 'value': rng.choice([0, 1, 1, 0.0])})
+        steps.append({'op': 'eval', 'fn': fns[0]})
+        for f in rng.sample(fns, rng.randint(0, min(2, len(fns)))):
+            steps.append({'op': 'eval', 'fn': f})
+    return steps
+
+
+def gen_history_case(rng, fam, fresh_syntax=None, syntax=None):
+    if fam in ('logit', 'mev'):
+        while True:
+            c = g_logit_case(rng, 'mev' if fam == 'mev' else 'logit')
+            if len(c['util']) >= 2 and (fam != 'mev' or len(c['log_gi']) == len(c['util'])):
+                break
+    elif fam == 'mev_es':
+        c = value_case_es(rng)
+    else:
+        while True:
+            c = (value_case_nested(rng, fam == 'nested_mu') if fam.startswith('nested')
+                 else value_case_cnl(rng, fam == 'cnlmu'))
+            if c['nests']:
+                break
+    c['family'] = fam
+    c['history'] = True
+    c.pop('syntaxes', None)
+    c['choice'] = None
+    c['util'] = [[k, v if 'e' in v else {'e': ['Num', v['n']]}] for k, v in c['util']]
+    force = None
+    if 'nests' in c:
+        vals = rng.sample([1.25, 1.5, 1.75, 2.0, 2.5, 3.0, 4.0], len(c['nests']))
+        force = {}
+        for j, nst in enumerate(c['nests']):
+            nst[0] = {'n': vals[j]} if rng.random() < 0.5 else {'e': ['Beta', f'MU{j + 1}', vals[j], 0]}
+            force[f'MU{j + 1}'] = vals[j]
+    c['betas'] = set_betas(rng, c, force=force)
+    c['rows'] = gen_rows(rng, c, 3)
+    alts = [k for k, _ in c['util']]
+    syn = syntax or ('objects' if 'nests' in c and rng.random() < 0.8 else 'legacy')
+    call = {'name': 'H', 'fn': 'history', 'syntax': syn, 'steps': history_steps(rng, fam, alts, c.get('av') is not None)}
+    if fresh_syntax:
+        call['fresh_syntax'] = fresh_syntax
+    c['calls'] = [call]
+    return c
+
+
+def hv(d, k, r):
+    v = d.get(str(k)) if isinstance(d, dict) else None
+    if isinstance(v, list):
+        return v[r] if r < len(v) else v[0]
+    return ('exc', v)
+
+
+def oracle_history(c, res, r, distribution=True):
+    """every evaluation of a history on the same nests / util / availability objects must (1) equal the evaluation
+    on freshly built objects in the same state, (2) be a distribution, (3) not move under a uniform shift"""
+    H = res.get('H')
+    if not isinstance(H, dict) or 'evals' not in H:
+        return [('exception', 'the history could not be run', H)]
+    bad = []
+    any_row = False
+    last = {}
+    for n, ev in enumerate(H['evals']):
+        fn = ev['fn']
+        keys = list(ev['fresh'].keys())
+        avail = {}
+        for k, v in ev['av'].items():
+            x = v[r] if isinstance(v, list) and r < len(v) else (v[0] if isinstance(v, list) else v)
+            avail[k] = finite(x) and Fraction(x) != 0
+        if not any(avail.values()):
+            last.pop(fn, None)
+            continue
+        any_row = True
+        desc = f'evaluation {n} ({fn}) after ' + json.dumps(ev['after'])
+        for k in keys:
+            a, b = hv(ev['hist'], k, r), hv(ev['fresh'], k, r)
+            if isinstance(a, tuple) or isinstance(b, tuple):
+                if isinstance(a, tuple) != isinstance(b, tuple):
+                    bad.append(('history', f'{desc}: alternative {k}: {a!r} on the re-used objects, {b!r} on fresh ones', None))
+                continue
+            if k in avail and not avail[k] and fn.startswith('lnG'):
+                continue
+            if finite(a) and finite(b):
+                if not close(a, b, abs_=Fraction(1, 10 ** 15)):
+                    bad.append(('history', f'{desc}: alternative {k}: {a!r} on the re-used objects but {b!r} on '
+                                'freshly built objects in the same state', None))
+            elif a != b:
+                bad.append(('history', f'{desc}: alternative {k}: {a!r} on the re-used objects but {b!r} on fresh ones', None))
+        if fn in PROB_FNS and distribution:
+            vals = {k: hv(ev['hist'], k, r) for k in keys}
+            if all(finite(v) for v in vals.values()):
+                tot = sum(Fraction(v) for v in vals.values())
+                if abs(tot - 1) > TOL_SUM:
+                    bad.append(('history-sum', f'{desc}: probabilities sum to {float(tot)!r}', vals))
+                for k, v in vals.items():
+                    if not avail.get(k, True) and Fraction(v) != 0:
+                        bad.append(('history-unavailable', f'{desc}: unavailable alternative {k} has probability {v!r}', vals))
+            else:
+                bad.append(('history-non-finite', f'{desc}: {vals}', None))
+            if fn in last and fn != 'mev' and fn != 'mev_es':
+                pn, pvals = last[fn]
+                since = ev['after'][len(H['evals'][pn]['after']):]
+                if since and all(o['op'].startswith('shift') for o in since):
+                    for k in keys:
+                        if finite(pvals.get(k)) and finite(vals.get(k)) and abs(Fraction(pvals[k]) - Fraction(vals[k])) > TOL_SUM:
+                            bad.append(('history-shift', f'{desc}: P={vals[k]!r} but it was {pvals[k]!r} before the same '
+                                        f'constant was added to all utilities (alternative {k})', None))
+            last[fn] = (n, vals)
+    return bad if any_row else None
+
+
 def gen_value_cases(rng, n):
     cases = []
     plan = [(f, True, False) for f in ('logit', 'mev', 'nested', 'nested_mu', 'cnl', 'cnlmu', 'mev_es')]
@@ -1125,6 +1277,10 @@ def gen_value_cases(rng, n):
     plan += [('mev_es', False, False)] * 3
     # nest objects whose names collide (equal names / re-use of an object), nest parameters all different
     plan += [(f, False, False, m) for f in ('nested', 'nested_mu', 'cnl', 'cnlmu') for m in ('collision', 'equal')]
+    for fam in ('nested', 'nested', 'nested_mu', 'cnl', 'cnlmu', 'logit', 'mev', 'mev_es'):
+        cases.append(gen_history_case(rng, fam, syntax='objects' if fam in ('nested', 'nested_mu', 'cnl', 'cnlmu') else None))
+    for _ in range(max(0, n // 10)):
+        cases.append(gen_history_case(rng, rng.choice(['nested', 'nested', 'nested_mu', 'cnl', 'cnlmu', 'logit', 'mev', 'mev_es'])))
     for it in range(n + len(plan)):
         const_av, python, name_mode = False, False, None
         if it < len(plan):
@@ -1233,6 +1389,10 @@ def stream_prob_values(ctx, n_quick=110, n_thorough=1500):
                     'unavailable (also when the availabilities are plain Python numbers), exp(logP) = P, P(V+c) = P(V) (1e-9); plus engine value vs proved interval enclosure '
                     'of evalX of the same tree (lib/values.py) on the first row; variable-free variants are also evaluated by the '
                     'pure-Python evaluator get_value() (numeric availabilities with zeros, every alternative chosen in turn): '
+                    'same oracles + agreement with the engine; HISTORIES: the same nests object / util / availability dicts '
+                    're-used over several evaluations with the dicts replaced or updated in place in between (uniform '
+                    'shift, one utility, one availability): each evaluation = the one on freshly built objects, is a '
+                    'distribution, and does not move under a uniform shift; '
                     'same oracles + agreement with the engine; non-trivial = row with >= 2 '
                     'alternatives of which >= 1 available')
     rng = ctx.sub_rng('prob_values')
@@ -1414,7 +1574,9 @@ def replay_case(ctx, w):
     r = wit.get('row_index', 0)
     if 'exc' in res:
         return True, res
-    if c.get('pair_kind'):
+    if c.get('pair_kind') == 'history':
+        bad = oracle_history(c, res, r, distribution=False)
+    elif c.get('pair_kind'):
         from props import C06
         bad = C06.oracle_gen(c, res, r) if c['pair_kind'] == 'gen' else C06.oracle_pair(c, res, r)
     else:
